@@ -133,6 +133,20 @@ def execute_twins(case):
     return {"ok": not fails, "failures": fails, "outcome": "twins-ok" if not fails else "twins-mismatch", "nontrivial": True, "unverified": []}
 
 
+def execute_replaced(case):
+    """image file replaced in place by one of equal size (other line values), optionally keeping its modification time"""
+    sp = {"level": case["level"], "images": [["HH", None, 5, 2], ["HV", None, 3, 2]]}
+    a = treecheck.spec_from_case({"spec": sp})
+    b = treecheck.spec_from_case({"spec": {**sp, "line_mode": "drift"}})
+    kw = {"records_per_chunk": case["rpc"], "use_cache": False}
+    out = treecheck.check_replaced(a, b, kind=case["fs"], keep_mtime=case["keep_mtime"], only=["/imagery"], open_kw=kw)
+    fails = out["failures"][:3]
+    for f in fails:
+        f["detail"] = f"{case['level']} images replaced in place on {case['fs']} (modification time {'kept' if case['keep_mtime'] else 'new'}), second open: {f['detail']}"
+        f["case"] = {**case, "fn": "execute_replaced"}
+    return {"ok": not fails, "failures": fails, "outcome": "replaced-ok" if not fails else "replaced-stale", "nontrivial": True, "unverified": []}
+
+
 def execute(case):
     spec = treecheck.spec_from_case(case)
     kw = dict(case.get("kw") or {})
@@ -155,7 +169,7 @@ def run(res, tier, seed):
         "both record types; baselines L=1..3; every prefix field x {0,1,mid,max,high bit | every enum code | flag 0,1,2} on one"
         " line (quick) / each line (thorough), per-file constants on all lines; (year,day,ms) over 3 years x days"
         " {1,59,60,61,365,366} x ms {0,1,86399999}; us {0,1,86399999999}; 5 optional header fields x {blank,0,value,full width};"
-        " neighbour pairs full width (thorough); images of 260..2100 lines (more than one metadata request at the default rpc, hundreds of small ones); four-image products (two scans x two polarisations, four polarisations) uncached, while writing the index cache and through it; 24-line piecewise-constant and 4200-line images with extreme values, uncached and through the cache; pairs of a 1.1 and a 1.5 image with equal record length parsed in one process in both orders. Every case is a distinct product compared on all /imagery leaves."
+        " neighbour pairs full width (thorough); images of 260..2100 lines (more than one metadata request at the default rpc, hundreds of small ones); four-image products (two scans x two polarisations, four polarisations) uncached, while writing the index cache and through it; 24-line piecewise-constant and 4200-line images with extreme values, uncached and through the cache; pairs of a 1.1 and a 1.5 image with equal record length parsed in one process in both orders; image files replaced in place by files of equal size (modification time kept / new) between two opens. Every case is a distinct product compared on all /imagery leaves."
     )
     res.assumptions = ["per-file constants are constant over the lines of a file (the property calls them constants)", "a blank interleaving id may surface as absent or as '' (C03 and C20 word it differently)"]
     unv = set()
@@ -165,4 +179,7 @@ def run(res, tier, seed):
     twins = [{"L": L, "rpc": rpc, "P11": p11, "reverse": rev} for L in (2, 5) for rpc in (1, 2, 1024) for p11 in (1, 3) for rev in (False, True)]
     for idx, case, out in core.pool_map(__name__, "execute_twins", twins, chunksize=2):
         res.record({**case, "fn": "execute_twins"}, out, order=10**6 + idx)
+    rep = [{"level": lv, "fs": fs, "keep_mtime": km, "rpc": rpc} for lv in ("1.5", "1.1") for fs in ("local", "mcfs") for km in (True, False) for rpc in (2, 1024)]
+    for idx, case, out in core.pool_map(__name__, "execute_replaced", rep, chunksize=1):
+        res.record({**case, "fn": "execute_replaced"}, out, order=2 * 10**6 + idx)
     res.extra["unverified_leaves"] = sorted(unv)[:50]
